@@ -914,6 +914,22 @@ def z_r9_no_value_memo(p: Project, rep: Report):
         for fam in ("convert", "unconvert"):
             for key, h in D.family(ci, fam).table.items():
                 units.append((f"{cname}.{h.fn.name}", h.ffn, h.fn))
+    # public module-level helpers these routines call (not inlined by name policy) are part of them
+    from .source import Func as _Func9
+
+    grown = True
+    rounds = 0
+    while grown and rounds < 3:
+        grown, rounds = False, rounds + 1
+        have = {u[0] for u in units}
+        for label, fn, fn0 in list(units):
+            for c_ in ast.walk(fn):
+                if isinstance(c_, ast.Call) and isinstance(c_.func, ast.Name) and c_.func.id not in have:
+                    r_ = p.resolve(TYPES, c_.func.id)
+                    if isinstance(r_, _Func9) and r_.module == TYPES:
+                        units.append((c_.func.id, flat(p, TYPES, r_.node), r_.node))
+                        have.add(c_.func.id)
+                        grown = True
     tables = {TYPES: _module_tables(p, TYPES), "ofxtools.utils": _module_tables(p, "ofxtools.utils")}
     n = 0
     seen = set()
